@@ -167,6 +167,15 @@ fn c15_transforms() {
         }
         cases += 1;
         if ifft_with_options(PolynomialValues::new(want.clone()), None, Some(&table)).coeffs != coeffs { bad.push(format!("ifft with root table differs at size {n}")); }
+        for r in 1..=lg.min(4) {
+            // inverse transform of a VALUE vector whose last (1 - 2^-r) fraction is zero: the zero-tail option must not change the result
+            let mut v2 = want.clone(); for k in (n >> r)..n { v2[k] = F::ZERO; }
+            for tbl in [None, Some(&table)] {
+                cases += 1;
+                let c = ifft_with_options(PolynomialValues::new(v2.clone()), Some(r), tbl).coeffs;
+                if naive_dft(&c) != v2 { bad.push(format!("ifft with zero_factor {r}{} is not the inverse transform at size {n}", if tbl.is_some() { " and root table" } else { "" })); }
+            }
+        }
         // coset variants and LDE: the canonical shift, shifts inside the subgroup, and an arbitrary one
         let p = PolynomialCoeffs::new(coeffs.clone());
         let g = F::primitive_root_of_unity(lg);
